@@ -552,6 +552,7 @@ func init() {
 }
 
 func runC13(c *Cfg) {
+	runSpecial(c, "C13", "large-and-odd-key-populations")
 	r := c.Rep
 	if RaceEnabled {
 		runC13Race(c)
